@@ -509,6 +509,7 @@ SignalHandler::SignalHandler(BasicSolver &s)
   solver_.set_interrupter(this);
   signal_message_ptr_ = message_.c_str();
   signal_message_size_ = static_cast<unsigned>(message_.size());
+  MP_VERIF_SIGNAL_POINT("ctor:pre");
   stop_ = 0;
   MP_VERIF_SIGNAL_POINT("ctor:0");
   std::signal(SIGINT, HandleSigInt);
@@ -534,6 +535,7 @@ void SignalHandler::SetHandler(InterruptHandler handler, void *data) {
   // Disarm first: a signal arriving between the stores must never see
   // the new handler paired with the data of the previous registration.
   handler_ = 0;
+  MP_VERIF_SIGNAL_POINT("set:disarmed");
   data_ = data;
   MP_VERIF_SIGNAL_POINT("set:1");
   handler_ = handler;
